@@ -20,6 +20,8 @@ def text_corpus(seed, tier, family, what, features=()):
         if what == "c04":
             if i == 0:
                 tg.hostile_items()
+            if i == 1:
+                tg.impossible_type_names()
             tg.doc_groups(10 if tier == "quick" else 60)
             tg.merge_pairs(3)
         else:
@@ -41,9 +43,20 @@ def report_rejected(chk, pid, rejected, info, cfg):
             continue
         seen.add(de["item"])
         inf = info.get(de["item"], {})
+        if inf.get("position") == "type-name-impossible" and not de.get("code"):
+            # refused by the derive with a diagnostic of its own (no rustc error code): nothing is written for such a type
+            chk.add_eval()
+            chk.add_distinct(("type-name-impossible", inf.get("cls"), "diagnosed"))
+            chk.hist("impossible_type_names", "diagnosed")
+            continue
         chk.violation(f"{pid}|does-not-compile|{inf.get('position')}|{inf.get('cls')}" + (f"|{inf.get('form')}" if inf.get("form") else ""),
                       f"[{cfg}] item with {inf.get('position')} {inf.get('text')!r} is rejected by rustc: {de['message'][:200]}: {(de['source'] or '')[:300]}",
                       de, tags=[f"pos:{inf.get('position')}", f"cls:{inf.get('cls')}", "does-not-compile"])
+
+
+TS_RESERVED = set("""break case catch class const continue debugger default delete do else enum export extends false finally for function if
+import in instanceof new null return super switch this throw true try typeof var void while with implements interface let package private
+protected public static yield await any unknown never number bigint boolean string symbol object undefined""".split())
 
 
 def file_problems(f, expected_names=None):
@@ -68,6 +81,11 @@ def file_problems(f, expected_names=None):
         if not imp["type_only"]:
             out.append(("import-not-type-only", imp["spec"]))
     names = [d["name"] for d in f["decls"]]
+    for n in names:
+        # (swc's grammar lets these through; tsc does not: a declared name is a BindingIdentifier, modules are strict code, and a
+        # type alias may not take the name of a predefined type)
+        if n in TS_RESERVED:
+            out.append(("reserved-word-declared", n))
     if len(names) != len(set(names)):
         out.append(("declared-twice", sorted(n for n in set(names) if names.count(n) > 1)))
     if expected_names is not None and sorted(names) != sorted(expected_names):
@@ -81,12 +99,15 @@ def c04(pid, tier, seed):
     chk = C.Check(pid, tier, seed)
     chk.rule = ("(a) text corpus (gen/textgen.py): one hostile element per item - rename / variant rename / tag / content / struct tag / "
                 "variant-field rename strings over 23 classes (quotes, backslash, empty, `*/`, newline, emoji, keywords, ...), field, "
-                "variant and type identifiers (raw, TypeScript keywords, non-ASCII), doc texts in every form - exported with dependencies; "
+                "variant and type identifiers (raw, TypeScript keywords, non-ASCII), type names that cannot be declared, doc texts in every form - "
+                "exported with dependencies, every other root over long leftovers of an earlier run at its output paths; "
                 "(b) every file written by the graph corpus of C03. Oracle per file (swc): parses, first line is the notice, type-only "
                 "imports then only `export type`, declared names = identifiers of the types exported to that path (each once), final "
                 "newline, no comment detached from a declaration. Configurations: default, import-esm (alternating with the seed in "
                 "quick), format (thorough). distinct_nontrivial = distinct (position, hostile class) + distinct placement signatures")
-    chk.assumptions = ["container names are valid TypeScript identifiers (a type alias name cannot be quoted)",
+    chk.assumptions = ["hostile strings are not used as container names (a type alias name cannot be quoted); names that cannot be declared at all "
+                       "(reserved words, non-identifiers) are a position of their own: refused by the derive, or whatever is written parses and "
+                       "declares no reserved word",
                        "serde-compat off is covered in-process by C10, not by an end-to-end build"]
     try:
         configs = [()] if tier == "quick" else [(), ("vsupport/import-esm",), ("vsupport/format",)]
